@@ -3,31 +3,43 @@
 //! To add items for a property: create `items/cXX.rs`, add `mod cXX;` and one line in `run`.
 use std::collections::BTreeMap;
 
+mod c01;
 mod c02;
 mod c07;
 mod c10;
 mod c11;
+mod c12;
 mod c14;
 mod c21;
+mod c23;
+mod c24;
 mod c27;
 mod c28;
 mod c35;
 mod c42;
+mod c45;
 mod c46;
+mod c47;
 
 pub fn run(item: &str, repo: &str, out: &str) -> Result<String, String> {
     let handlers: &[fn(&str, &str, &str) -> Option<Result<String, String>>] = &[
+        c01::run,
         c02::run,
         c07::run,
         c10::run,
         c11::run,
+        c12::run,
         c14::run,
         c21::run,
+        c23::run,
+        c24::run,
         c27::run,
         c28::run,
         c35::run,
         c42::run,
+        c45::run,
         c46::run,
+        c47::run,
     ];
     for h in handlers {
         if let Some(r) = h(item, repo, out) {
